@@ -41,7 +41,7 @@ C02, what the capstones (`Props/C02Capstone.lean`) still excluded.
    header protection with the wrong key and the AEAD check rejects the packet. BEFORE the repair "only an authenticated QUIC
    packet moves the largest packet number of its space" `get_full_packet_number` had by then stored the garbage packet number
    as the largest of the client's application space (`legacy_zero_rtt_rejected_poisons_pn`, on `Session.Legacy`), and every
-   later 1-RTT packet of the client was reconstructed next to it and lost (`ExZr.legacy_zero_rtt_first_offered_suite_counterexample`).
+   later 1-RTT packet of the client was reconstructed next to it and lost (`ExZr.legacy_first_offered_suite_counterexample`).
    SINCE the repair the rejected packet leaves the session as it was (`zero_rtt_rejected_leaves_session`): only the 0-RTT
    packet itself is lost, the following 1-RTT packets are exported (`ExZr.late_survives`). `harness/c02_0rtt_replay.py` (real
    tool, real cryptography) shows both, depending on the tree under test; further kernel-checked witness
@@ -1421,7 +1421,7 @@ def pzGarbled : Pkt := { pz with pn := some [0x3f, 0xa6, 0x90, 0x12] }
     2. but the garbage packet number 0x3fa69012 is now the largest one of the client's application space;
     3. the client's NEXT 1-RTT packet (number 1, `LATE`), which the session exports when it comes first (4.),
        is reconstructed next to the garbage, rejected and lost: `output_buffer` stays empty. -/
-theorem legacy_zero_rtt_first_offered_suite_counterexample :
+theorem legacy_first_offered_suite_counterexample :
     (Legacy.stepPkt params sB pzGarbled).caught.isSome = true ∧ (Legacy.stepPkt params sB pzGarbled).st.out = [] ∧
     (Legacy.stepPkt params sB pzGarbled).st.pnClient.app = 1067880466 ∧
     (Legacy.stepPkt params (Legacy.stepPkt params sB pzGarbled).st p1).caught.isSome = true ∧
@@ -1536,7 +1536,7 @@ def expectedOutX (c : QConn) (ds : List DgX) (bs : List Dg1) : List Pipeline.Out
     part, under `ZrPkOk`). NOT PROVED: `quic_connection_exact_0rtt_partial` proves the step for one 0-RTT packet right after
     the firing `handle_crypto_frame`; missing is `EarlyKeyed` as part of the handshake invariant `HsSt` along the history.
     The condition `ZrPkOk.suite` is NOT implied by the RFCs before the ServerHello (first offered suite = resumed suite;
-    ClientHello complete): `ExZr.legacy_zero_rtt_first_offered_suite_counterexample` / `ExZr.late_survives`, `ExZr.zero_rtt_before_client_hello_counterexample`,
+    ClientHello complete): `ExZr.legacy_first_offered_suite_counterexample` / `ExZr.late_survives`, `ExZr.zero_rtt_before_client_hello_counterexample`,
     `harness/c02_0rtt_replay.py`. -/
 def quic_connection_exact_0rtt_statement : Prop :=
   ∀ (hl : H.Lawful) (h32 : H.sha256.outLen = 32) (L : SealLaws Pc)
